@@ -286,7 +286,8 @@ TIE_NAMES = {'encode_varint': 'utils.encode_varint', 'prepend_compact_size': 'ut
              'tagged_hash': 'utils.tagged_hash and schnorr.tagged_hash', 'tapbranch_tagged_hash': 'utils.tapbranch_tagged_hash',
              'tapleaf_tagged_hash': 'utils.tapleaf_tagged_hash (modulo Script.to_bytes)',
              'block_header': 'BlockHeader.get_target_bits / serialize_header / get_block_hash',
-             'tx_parts': 'TxOutput.to_bytes and TxInput.to_bytes (modulo Script.to_bytes)'}
+             'tx_parts': 'TxOutput.to_bytes and TxInput.to_bytes (modulo Script.to_bytes)',
+             'tx_whole': 'TxWitnessInput.to_bytes and Transaction.to_bytes (loops included)'}
 
 
 def with_ties(ties, level_text, level_note, technique):
